@@ -357,4 +357,15 @@ def evaluatedUnseen (a : Algo) (init : Iter) (iters : Nat → Iter) (m : Nat) : 
 def presented (a : Algo) (init : Iter) (iters : Nat → Iter) (m : Nat) : List Reg :=
   (match a with | .gp _ => init.regs | _ => []) ++ (List.range m).flatMap (fun i => (iters i).regs)
 
+/-! ## The public ranking helpers (`problems/helpers.py`) -/
+
+/-- `problems.helpers.best_individual(population, problem)`: Python's `max(population, key=aggregate)` -- the FIRST individual of
+maximal aggregate. -/
+def helperBest : List Reg → Option Reg
+  | [] => none
+  | x :: xs => some (xs.foldl (fun b y => if isBetter y.agg b.agg then y else b) x)
+
+/-- `problems.helpers.is_better(problem, a, b)` -/
+def helperIsBetter (a b : Reg) : Bool := isBetter a.agg b.agg
+
 end GEVerif.Eval
